@@ -49,7 +49,9 @@ static const char* WKT[] = {
     "CURVEPOLYGON(CIRCULARSTRING(0 0,1 1,2 0,1 -1,0 0))", "CURVEPOLYGON EMPTY", "MULTICURVE((0 0,1 1),CIRCULARSTRING(0 0,1 1,2 0))",
     "MULTISURFACE(((0 0,1 0,1 1,0 0)),CURVEPOLYGON(CIRCULARSTRING(0 0,1 1,2 0,1 -1,0 0)))",
     "POLYGON((0 0,100 0,100 100,0 100,0 0))", "LINESTRING(0 0,100 100)", "POINT(50 50)", "MULTIPOINT((1 1),(2 2),(3 3),(1 1))",
-    "POLYGON((0 0,5 0,5 5,0 5,0 0))", "POLYGON((5 0,10 0,10 5,5 5,5 0))", "LINESTRING(-1 2,11 2)", "POINT(0 0)"
+    "POLYGON((0 0,5 0,5 5,0 5,0 0))", "POLYGON((5 0,10 0,10 5,5 5,5 0))", "LINESTRING(-1 2,11 2)", "POINT(0 0)",
+    "LINEARRING(2 2,3 2,3 3,2 2)", "LINEARRING EMPTY", "LINEARRING(0 0,10 0,10 10,0 10,0 0)", "CIRCULARSTRING(2 0,3 1,4 0)", "LINESTRING(4 0,5 5)",
+    "CIRCULARSTRING(0 0,5 5,10 0,5 -5,0 0)"
 };
 static const int NWKT = sizeof(WKT) / sizeof(WKT[0]);
 static const double DBL[] = {0.0, -0.0, 1.0, -1.0, 0.5, 2.0, 10.0, 100.0, 1e300, -1e300, NAN, INFINITY, -INFINITY, 5.0, 0.25, DBL_MAX};
@@ -128,7 +130,7 @@ static std::string wkb_hex(const GEOSGeometry* g) {
 // D out double*, U out unsigned*, C out char*); special: "coll", "poly", "query", "iterate", "wkt"
 static std::string csig(const std::string& name, const std::string& shape, char res, char cls) {
     static const struct { const char* n; const char* s; } special[] = {
-        {"GEOSGeomFromWKT_r", "wkt"}, {"GEOSGeom_createCollection_r", "coll"}, {"GEOSGeom_createPolygon_r", "poly"},
+        {"GEOSGeomFromWKT_r", "wkt"}, {"GEOSGeom_createCollection_r", "coll"}, {"GEOSGeom_createPolygon_r", "poly"}, {"GEOSGeom_createCompoundCurve_r", "ccurve"}, {"GEOSGeom_createCurvePolygon_r", "cpoly"},
         {"GEOSSTRtree_query_r", "query"}, {"GEOSSTRtree_iterate_r", "iterate"}, {"GEOSSTRtree_create_r", "p:z"},
         {"GEOSCoordSeq_getSize_r", "i:pU"}, {"GEOSCoordSeq_getDimensions_r", "i:pU"}, {"GEOSMinimumClearance_r", "i:pD"},
         {"GEOSPreparedDistanceWithin_r", "c:ppd"}, {"GEOSGetNumGeometries_r", "i:p"}, {"GEOSProjectNormalized_r", "d:pp"},
@@ -300,19 +302,28 @@ static int run_program(const std::string& line, int fd) {
             r.p = GEOSGeomFromWKT_r(H, WKT[a[0].u]);
             if (r.p && (a[0].u % 3) == 1) GEOSSetSRID_r(H, (GEOSGeometry*)r.p, PICK(SRID, a[0].u));
         } else if (sig == "coll") {
-            GEOSGeometry* arr[2] = {(GEOSGeometry*)a[1].p, (GEOSGeometry*)a[2].p};
-            r.p = GEOSGeom_createCollection_r(H, a[0].i, arr, 2);
-            if (r.p) {      // the elements of a MULTI* must be of its member type; nothing checks it (the object is unusable: destroy it here)
+            // array constructors: the arrays hold every object argument after the fixed ones, whatever its type (ownership of ALL of
+            // them passes to the library, also on failure: the bookkeeping below marks them consumed and LSan decides at exit)
+            GEOSGeometry* arr[8]; unsigned n = 0;
+            for (size_t q = 1; q < a.size() && n < 8; q++) arr[n++] = (GEOSGeometry*)a[q].p;
+            r.p = GEOSGeom_createCollection_r(H, a[0].i, arr, n);
+            if (r.p) {      // the elements of a MULTI* must be of its member type (the object is unusable otherwise: destroy it here)
                 int ty = a[0].i; bool bad = false;
-                for (int q = 0; q < 2; q++) {
-                    int et = GEOSGeomTypeId_r(H, GEOSGetGeometryN_r(H, (GEOSGeometry*)r.p, q));
+                for (unsigned q = 0; q < n; q++) {
+                    int et = GEOSGeomTypeId_r(H, GEOSGetGeometryN_r(H, (GEOSGeometry*)r.p, (int)q));
                     if ((ty == GEOS_MULTIPOINT && et != GEOS_POINT) || (ty == GEOS_MULTILINESTRING && et != GEOS_LINESTRING && et != GEOS_LINEARRING) || (ty == GEOS_MULTIPOLYGON && et != GEOS_POLYGON)) bad = true;
                 }
                 if (bad) { say(fd, "V %d %s collection-with-elements-of-the-wrong-type-accepted\n", (int)k, cur_desc); GEOSGeom_destroy_r(H, (GEOSGeometry*)r.p); r.p = nullptr; g_errs = 1; }
             }
-        } else if (sig == "poly") {
-            GEOSGeometry* holes[1] = {(GEOSGeometry*)a[1].p};
-            r.p = GEOSGeom_createPolygon_r(H, (GEOSGeometry*)a[0].p, holes, 1);
+        } else if (sig == "poly" || sig == "cpoly") {
+            GEOSGeometry* holes[8]; unsigned n = 0;
+            for (size_t q = 1; q < a.size() && n < 8; q++) holes[n++] = (GEOSGeometry*)a[q].p;
+            r.p = sig == "poly" ? GEOSGeom_createPolygon_r(H, (GEOSGeometry*)a[0].p, holes, n)
+                                : GEOSGeom_createCurvePolygon_r(H, (GEOSGeometry*)a[0].p, holes, n);
+        } else if (sig == "ccurve") {
+            GEOSGeometry* arr[8]; unsigned n = 0;
+            for (size_t q = 0; q < a.size() && n < 8; q++) arr[n++] = (GEOSGeometry*)a[q].p;
+            r.p = GEOSGeom_createCompoundCurve_r(H, arr, n);
         } else if (name == "GEOSSTRtree_insert_r") {
             GEOSSTRtree_insert_r(H, (GEOSSTRtree*)a[0].p, (const GEOSGeometry*)a[1].p, a[1].p);
         } else if (sig == "query") {
